@@ -1,1 +1,261 @@
-pub fn run(_ctx: mc_core::Ctx) -> ! { mc_core::report::machinery_failure("todo") }
+//! C32 — slot, epoch and wall-clock conversions are mutually consistent.
+//! GRID over contiguous ranges: EVERY slot of [0, 2^24) (quick) / [0, 2^32)
+//! (thorough) for the four well-known networks, plus 2^16-slot windows around
+//! each era boundary and ending at 2^40.
+
+use mc_core::{catch, cov, json, Ctx, Level, Value};
+use pallas_traverse::wellknown::GenesisValues;
+use rayon::prelude::*;
+use std::collections::BTreeMap;
+
+const CHUNK: u64 = 1 << 16;
+
+/// Independent description of a network's two eras (Byron, Shelley+), derived
+/// from the genesis values that are the *input* of the conversion: slot
+/// length in seconds, epoch length in seconds => epoch size in slots.
+#[derive(Clone, Copy, Debug)]
+struct EraSpec {
+    slot_len: u64,
+    epoch_slots: u64,
+}
+
+struct Net {
+    name: &'static str,
+    g: GenesisValues,
+    boundary: u64,
+    byron: EraSpec,
+    shelley: EraSpec,
+}
+
+/// Known protocol constants (Byron: k = 2160 => 10k = 21600 slots of 20 s on
+/// mainnet / testnet / preprod, 4320 on preview; Shelley: 432000 slots of 1 s,
+/// 86400 on preview). Used to cross-check what the genesis values imply.
+fn protocol_epoch_slots(name: &str) -> (u64, u64) {
+    match name {
+        "preview" => (4320, 86400),
+        _ => (21600, 432000),
+    }
+}
+
+fn nets() -> Vec<Net> {
+    let mk = |name: &'static str, g: GenesisValues| {
+        let byron = EraSpec { slot_len: g.byron_slot_length as u64, epoch_slots: g.byron_epoch_length as u64 / g.byron_slot_length as u64 };
+        let shelley = EraSpec { slot_len: g.shelley_slot_length as u64, epoch_slots: g.shelley_epoch_length as u64 / g.shelley_slot_length as u64 };
+        let (pb, ps) = protocol_epoch_slots(name);
+        if byron.epoch_slots != pb || shelley.epoch_slots != ps || byron.slot_len != 20 || shelley.slot_len != 1 {
+            mc_core::report::machinery_failure(&format!("{name}: genesis values imply {byron:?} / {shelley:?}, protocol constants say {pb} / {ps} slots per epoch"));
+        }
+        Net { name, boundary: g.shelley_known_slot, g, byron, shelley }
+    };
+    vec![
+        mk("mainnet", GenesisValues::mainnet()),
+        mk("testnet", GenesisValues::testnet()),
+        mk("preview", GenesisValues::preview()),
+        mk("preprod", GenesisValues::preprod()),
+    ]
+}
+
+#[derive(Default, Clone)]
+struct Found {
+    /// fingerprint -> (minimal slot, count, description of the minimal one)
+    v: BTreeMap<String, (u64, u64, String)>,
+}
+
+impl Found {
+    fn add(&mut self, fp: &str, slot: u64, what: impl FnOnce() -> String) {
+        match self.v.get_mut(fp) {
+            Some(e) => {
+                e.1 += 1;
+                if slot < e.0 {
+                    e.0 = slot;
+                    e.2 = what();
+                }
+            }
+            None => {
+                self.v.insert(fp.to_string(), (slot, 1, what()));
+            }
+        }
+    }
+    fn merge(&mut self, o: Found) {
+        for (k, (s, c, w)) in o.v {
+            match self.v.get_mut(&k) {
+                Some(e) => {
+                    e.1 += c;
+                    if s < e.0 {
+                        e.0 = s;
+                        e.2 = w;
+                    }
+                }
+                None => {
+                    self.v.insert(k, (s, c, w));
+                }
+            }
+        }
+    }
+}
+
+#[derive(Default, Clone)]
+struct ChunkOut {
+    found: Found,
+    slots: u64,
+    /// distinct (era, epoch) pairs seen in this chunk: min/max epoch per era
+    epochs: Vec<(bool, u64)>,
+}
+
+/// The property, clause by clause, for one slot. Returns the epoch reported.
+#[inline]
+fn check_slot(net: &Net, s: u64, f: &mut Found) -> (bool, u64) {
+    let g = &net.g;
+    let shelley = s >= net.boundary;
+    let era = if shelley { net.shelley } else { net.byron };
+    let era_name = if shelley { "shelley" } else { "byron" };
+    let (epoch, sub) = g.absolute_slot_to_relative(s);
+    // clause 1: slot-in-epoch < epoch size in slots of that era
+    let in_range = sub < era.epoch_slots;
+    // clause 2: converting back yields the original slot
+    let back = g.relative_slot_to_absolute(epoch, sub);
+    if !in_range {
+        f.add(&format!("slot-in-epoch-not-below-epoch-size:{era_name}"), s, || {
+            format!(
+                "{}: absolute_slot_to_relative({s}) = ({epoch}, {sub}) but a {era_name} epoch has {} slots; relative_slot_to_absolute({epoch}, {sub}) = {back}",
+                net.name, era.epoch_slots
+            )
+        });
+    } else if back != s {
+        f.add(&format!("round-trip-differs:{era_name}"), s, || {
+            format!("{}: absolute_slot_to_relative({s}) = ({epoch}, {sub}), relative_slot_to_absolute gives {back}", net.name)
+        });
+    }
+    // clause 3: wall clock strictly increasing, by the slot length of the era of s
+    let w0 = g.slot_to_wallclock(s);
+    let w1 = g.slot_to_wallclock(s + 1);
+    if w1 <= w0 || w1 - w0 != era.slot_len {
+        let at_boundary = s + 1 == net.boundary;
+        let fp = if at_boundary { format!("wallclock-step-across-era-boundary:{}", net.name) } else { format!("wallclock-step:{era_name}") };
+        f.add(&fp, s, || {
+            format!(
+                "{}: slot_to_wallclock({s}) = {w0}, slot_to_wallclock({}) = {w1}: step {} instead of the {era_name} slot length {} s",
+                net.name,
+                s + 1,
+                w1 as i128 - w0 as i128,
+                era.slot_len
+            )
+        });
+    }
+    (shelley, epoch)
+}
+
+fn run_chunk(net: &Net, start: u64, end: u64) -> ChunkOut {
+    let mut out = ChunkOut::default();
+    let whole = catch(|| {
+        let mut f = Found::default();
+        let mut epochs: Vec<(bool, u64)> = vec![];
+        for s in start..end {
+            let e = check_slot(net, s, &mut f);
+            if epochs.last() != Some(&e) {
+                epochs.push(e);
+            }
+        }
+        (f, epochs)
+    });
+    match whole {
+        Ok((f, epochs)) => {
+            out.found = f;
+            out.epochs = epochs;
+        }
+        Err(_) => {
+            // a panic somewhere in the chunk: redo slot by slot to attribute it
+            for s in start..end {
+                let mut f = Found::default();
+                match catch(|| check_slot(net, s, &mut f)) {
+                    Ok(e) => {
+                        if out.epochs.last() != Some(&e) {
+                            out.epochs.push(e);
+                        }
+                        out.found.merge(f);
+                    }
+                    Err(p) => out.found.add(&p.site(), s, || format!("{}: slot {s}: panicked: {} at {}", net.name, p.message, p.location)),
+                }
+            }
+        }
+    }
+    out.slots = end - start;
+    out
+}
+
+pub fn run(ctx: Ctx) -> ! {
+    let nets = nets();
+    let top: u64 = if ctx.thorough { 1 << 32 } else { 1 << 24 };
+    let mut total_slots = 0u64;
+    let mut found = Found::default();
+    let mut distinct = 0u64;
+    let mut ranges_json: Vec<Value> = vec![];
+    let mut samples: Vec<Value> = vec![];
+    for net in &nets {
+        // contiguous ranges: [0, top), windows around the boundary, window ending at 2^40
+        let mut ranges: Vec<(u64, u64)> = vec![(0, top)];
+        let b = net.boundary;
+        let lo = b.saturating_sub(CHUNK);
+        ranges.push((lo, b + CHUNK));
+        // the first Byron epoch boundary and the first Shelley epoch boundary
+        ranges.push((net.byron.epoch_slots.saturating_sub(CHUNK / 2), net.byron.epoch_slots + CHUNK / 2));
+        ranges.push((b + net.shelley.epoch_slots - CHUNK / 2, b + net.shelley.epoch_slots + CHUNK / 2));
+        ranges.push(((1u64 << 40) - CHUNK, 1u64 << 40));
+        // drop parts already covered by [0, top)
+        let ranges: Vec<(u64, u64)> = ranges.into_iter().enumerate().filter_map(|(i, (a, e))| if i == 0 { Some((a, e)) } else if e <= top { None } else { Some((a.max(top), e)) }).collect();
+        let mut chunks: Vec<(u64, u64)> = vec![];
+        for (a, e) in &ranges {
+            let mut s = *a;
+            while s < *e {
+                let n = (s + CHUNK).min(*e);
+                chunks.push((s, n));
+                s = n;
+            }
+        }
+        let outs: Vec<ChunkOut> = chunks.par_iter().map(|(a, e)| run_chunk(net, *a, *e)).collect();
+        let mut epochs: std::collections::BTreeSet<(bool, u64)> = Default::default();
+        let mut byron_slots = 0u64;
+        for (o, (a, e)) in outs.into_iter().zip(chunks.iter()) {
+            total_slots += o.slots;
+            found.merge(o.found);
+            epochs.extend(o.epochs);
+            byron_slots += e.min(&b).saturating_sub(*a.min(&b));
+        }
+        distinct += epochs.len() as u64;
+        if byron_slots == 0 && b > 0 {
+            mc_core::report::machinery_failure(&format!("{}: no Byron slot visited", net.name));
+        }
+        ranges_json.push(json!({"network": net.name, "ranges": ranges.iter().map(|(a, e)| format!("[{a}, {e})")).collect::<Vec<_>>(), "era_boundary_slot": b, "byron_slots_visited": byron_slots, "distinct_era_epoch_pairs": epochs.len(),
+            "byron": {"slot_length_s": net.byron.slot_len, "epoch_slots": net.byron.epoch_slots}, "shelley": {"slot_length_s": net.shelley.slot_len, "epoch_slots": net.shelley.epoch_slots}}));
+        for s in [0u64, net.byron.epoch_slots, b] {
+            if samples.len() < 8 {
+                let (e, r) = net.g.absolute_slot_to_relative(s);
+                samples.push(json!({"network": net.name, "slot": s, "epoch": e, "slot_in_epoch": r, "wallclock": net.g.slot_to_wallclock(s)}));
+            }
+        }
+    }
+    // deterministic reporting: one violation per fingerprint with its minimal slot
+    for (fp, (slot, count, what)) in found.v.iter() {
+        ctx.violation(fp.clone(), format!("{what} [minimal failing slot of {count} in the explored ranges]"), json!({"slot": slot, "failing_slots": count, "what": what}));
+    }
+    if distinct < 8 {
+        mc_core::report::machinery_failure("fewer than 8 distinct (network, era, epoch) outcomes");
+    }
+    let cov = cov! {
+        "evaluations" => total_slots,
+        "distinct_nontrivial" => distinct,
+        "rule" => "evaluation = one (network, absolute slot) on which all clauses were evaluated with the real GenesisValues methods (slot-in-epoch < epoch size of the era of the slot; relative_slot_to_absolute(absolute_slot_to_relative(s)) == s; slot_to_wallclock(s+1) - slot_to_wallclock(s) == slot length of the era of s); non-trivial = distinct (network, era, epoch) results reached",
+        "samples" => samples,
+        "ranges" => ranges_json,
+        "exhaustive" => true,
+    };
+    ctx.finish(
+        Level::Exploration,
+        cov,
+        &[
+            "era of a slot: Byron iff slot < shelley_known_slot of the network's GenesisValues",
+            "epoch size in slots = epoch length / slot length of the era (genesis values give both in seconds); cross-checked against the protocol constants 21600 / 432000 (4320 / 86400 on preview)",
+            "every slot of the stated ranges is evaluated; slots in [2^24 or 2^32, 2^40) outside the windows are not",
+        ],
+    )
+}
